@@ -518,7 +518,114 @@ func genCfg(r *R) Cfg {
 	if r.P(0.35) {
 		c.Status = r.Range(200, 299)
 	}
+	// values mined from the tree under test (dict.go): kept only if the result is
+	// still accepted, so that the dictionary costs no runs
+	if d, changed := withDict(r, c); changed {
+		if m, err, pan := newMW(d); m != nil && err == nil && pan == nil {
+			return d
+		}
+	}
 	return c
+}
+
+// withDict returns c with a few of its values replaced or extended by literals
+// of the tree under test: a host, port or scheme of one pattern, a method, a
+// request or response header name, max-age, status, a list padded to a mined
+// size.
+func withDict(r *R, c Cfg) (Cfg, bool) {
+	if len(dict.any) == 0 || !r.P(0.2) {
+		return c, false
+	}
+	d := c.clone()
+	changed := false
+	restricted := c.Credentialed || c.PNA || c.PNANoCors
+	if len(d.Origins) > 0 && d.Origins[0] != "*" {
+		i := r.Intn(len(d.Origins))
+		if pp, ok := splitPattern(d.Origins[i]); ok && d.Origins[i] != "*" {
+			host, port, scheme := pp.Host, "", pp.Scheme
+			if pp.Wild {
+				host = "*." + host
+			}
+			if pp.Port != "" {
+				port = ":" + pp.Port
+			}
+			if h, ok := dictStr(r, dict.hosts, 0.3); ok {
+				host = h
+				if r.P(0.2) && !isIPHost(h) {
+					host = "*." + h
+				}
+			}
+			if n, ok := dictInt(r, dict.ports, 0.4); ok {
+				port = fmt.Sprintf(":%d", n)
+			}
+			if sch, ok := dictStr(r, dict.schemes, 0.15); ok {
+				scheme = sch
+			}
+			if !(scheme == "https" && port == ":443" || scheme == "http" && port == ":80") {
+				np := scheme + "://" + host + port
+				if np != d.Origins[i] {
+					if scheme != "https" && restricted && !isLoopbackish(strings.TrimPrefix(host, "*.")) {
+						d.TolInsecure = true
+					}
+					if r.P(0.5) {
+						d.Origins[i] = np
+					} else {
+						d.Origins = insertAt(d.Origins, r.Intn(8), np)
+					}
+					changed = true
+				}
+			}
+		}
+		if o, ok := dictStr(r, dict.origins, 0.1); ok && len(o) > 3 {
+			d.Origins = insertAt(d.Origins, r.Intn(8), o)
+			changed = true
+		}
+		if n, ok := dictInt(r, dict.sizes, 0.1); ok && n <= 80 && !restricted {
+			for len(d.Origins) < n {
+				d.Origins = append(d.Origins, "https://"+randDomain(r))
+				changed = true
+			}
+		}
+	}
+	hasStar := func(l []string) bool {
+		for _, x := range l {
+			if x == "*" {
+				return true
+			}
+		}
+		return false
+	}
+	if t, ok := dictStr(r, dict.tokens, 0.25); ok && !(len(d.Methods) == 1 && d.Methods[0] == "*") {
+		d.Methods = insertAt(d.Methods, r.Intn(8), t)
+		changed = true
+	}
+	if t, ok := dictStr(r, dict.tokens, 0.3); ok {
+		d.RequestHeaders = insertAt(d.RequestHeaders, r.Intn(8), t)
+		changed = true
+	}
+	if t, ok := dictStr(r, dict.tokens, 0.25); ok && !hasStar(d.ResponseHeaders) {
+		d.ResponseHeaders = insertAt(d.ResponseHeaders, r.Intn(8), t)
+		changed = true
+	}
+	if n, ok := dictInt(r, dict.sizes, 0.1); ok && !hasStar(d.RequestHeaders) {
+		for i := 0; len(d.RequestHeaders) < n; i++ {
+			d.RequestHeaders = append(d.RequestHeaders, fmt.Sprintf("x-pad-%03d", i))
+			changed = true
+		}
+	}
+	if n, ok := dictInt(r, dict.sizes, 0.1); ok && !hasStar(d.ResponseHeaders) && len(d.ResponseHeaders) > 0 {
+		for i := 0; len(d.ResponseHeaders) < n; i++ {
+			d.ResponseHeaders = append(d.ResponseHeaders, fmt.Sprintf("X-Pad-%03d", i))
+			changed = true
+		}
+	}
+	if n, ok := dictInt(r, dict.maxAge, 0.25); ok {
+		d.MaxAge, changed = n, true
+	}
+	if n, ok := dictInt(r, dict.status, 0.25); ok {
+		d.Status, changed = n, true
+	}
+	return d, changed
 }
 
 // shrinkCfg proposes simpler configurations (they may be invalid; an invalid
